@@ -519,3 +519,8 @@ RECIPES += [
             v = np.hstack''', '''        if c <= 8:
             v = np.hstack''', "rdgrids zero-width padding at exactly 8 columns"),
 ]
+
+RECIPES += [
+    ("C13", "neutral", [], B, '''                            num_str = f"{num.real:16.9E}{num.imag:16.9E}"''', '''                            re_part, im_part = num.real, num.imag
+                            num_str = f"{re_part:16.9E}" + f"{im_part:16.9E}"''', "wtdmig complex parts through temporaries (F12 keys must survive)"),
+]
